@@ -50,7 +50,7 @@ CHECKS = {
          "Trusted: nothing beyond the public API; tokens flagged by hints count as set aside.",
          "5 C07"),
  "C09": (True, "trace-law monitor (subset/monotonicity laws over thresholds) + 15-line three-valued policy model",
-         "Exploration: each grammar-noise stream is scanned at 9 base thresholds plus value and value+-0.5 of its numbers; universal laws (F(t) subset F(0) as exact tuples, monotone in t, t<=0/NaN rewrites everything, non-small numbers always reported) on all streams; on lower-case hint-free streams a policy model decides membership of each small number from the soft/hard/ambiguous class of the gaps to its neighbours; ambiguous gaps (separator word, ellipsis, digit tokens) are not judged and counted.",
+         "Exploration: each grammar-noise stream (incl. digit tokens, and not-a-number / separation hints on a third of the model streams) is scanned at 9 base thresholds plus value and value+-0.5 of its numbers; universal laws (F(t) subset F(0) as exact tuples, monotone in t, t<=0/NaN rewrites everything, non-small numbers always reported) on all streams; on lower-case streams a policy model decides membership of each small number from the soft/hard/ambiguous class of the gaps to its neighbours (breakers = a word that is not linking, or a lone period, as the property's anchor states); ambiguous gaps (separator word, a flagged conjunction the language does not list as linking) are not judged and counted.",
          "Trusted: 'linking word' / 'separator word' are asked of the running library; the three-valued gap model of DESIGN.md C09.",
          "5 C09"),
  "C10": (True, "metamorphic runtime monitor: rewrite(A S B) vs rewrite(A) S rewrite(B); punctuation sweep",
@@ -58,7 +58,7 @@ CHECKS = {
          "Trusted: filler self-check; clause 2 conditioned on both numbers passing C01.",
          "5 C10"),
  "C11": (True, "metamorphic runtime monitor: two executions under a reversible recasing",
-         "Exploration: texts rich in linking words between small numbers, hostile and annotator-state texts; all-upper / capitalised / per-character random recasing restricted to characters whose case mapping round-trips; validation result, token count, occurrences tuple-for-tuple at thresholds 0,3,10,inf and the rewrite of the recased text vs the splice of its own tokens.",
+         "Exploration: texts rich in linking words between small numbers, hostile and annotator-state texts, and (a quarter of the cases) hinted caller-token streams; all-upper / capitalised / per-character random recasing restricted to characters whose case mapping round-trips; validation result, token count, occurrences tuple-for-tuple at thresholds 0,3,10,inf and the rewrite of the recased text vs the splice of its own tokens.",
          "Trusted: texts whose whole-string lowercase changes under recasing are outside the quantifier and skipped (counted).",
          "5 C11"),
  "C12": (True, "history + executable positional model of the digit builder; release and debug-profile legs; invariants at the apply() boundary",
@@ -70,7 +70,7 @@ CHECKS = {
          "Trusted: tag-like strings such as EN / en-US / eng are not judged.",
          "5 C13"),
  "C14": (True, "history-independence and thread-sharing differential monitors; ThreadSanitizer, AddressSanitizer and Miri legs; Send+Sync build probe; fd-level silence observation",
-         "Exploration: one long-lived interpreter set vs a second one (every call) and vs freshly built ones (sampled) over scripts aimed at carried state; 16 threads replay pre-computed scripts on shared facade and concrete values with overlap measured; thorough repeats the thread workload under TSan (-Zbuild-std), ASan and Miri seeded schedules; a build probe decides Send + Sync; a worker process with piped stdout/stderr applies every lexicon word in 7 digit states and converts the corpora: zero bytes expected.",
+         "Exploration: one long-lived interpreter set vs a second one (every call) and vs freshly built ones (sampled) over scripts aimed at carried state, incl. lazy searches dropped half-way; an order-independence pass replays the same calls in another order in another thread (per-thread or process-wide hidden state); 16 threads replay pre-computed scripts on never-used shared facade and concrete values (cold start) with overlap measured, plus a contention phase of short mixed calls on one shared interpreter per language; two Miri schedules (quick) / eight (thorough) for data races and UB; thorough repeats the thread workload under TSan (-Zbuild-std) and ASan; a build probe decides Send + Sync; a worker process with piped stdout/stderr applies every lexicon word in 7 digit states, converts the corpora and runs the hostile input mix: zero bytes expected.",
          "Trusted: harness-local force-Sync wrapper (so the experiment still builds if an interpreter gains interior mutability); sanitizer toolchains; a leg that cannot be built is inconclusive.",
          "5 C14"),
  "C15": (True, "trace monitor on the lazy iterator (wrapping counting iterator) + metamorphic hint/comma equivalence",
